@@ -827,9 +827,30 @@ def bnaf_violation(seed, dim, tol):
     return None
 
 
+def flat_steep_cases(rng, n):
+    """linear functions with very flat / very steep slopes (dyadic, exact roots), tight tolerances"""
+    cases = []
+    for k in range(n):
+        a = Fr(1, 2 ** rng.choice([8, 10, 13, 16, 20])) if k % 2 == 0 else Fr(2 ** rng.choice([6, 10]), 1)
+        lo, hi = rng.choice(BRACKETS[:4])
+        root = place_root(rng, lo, hi, rng.choice(["inside", "inside", "just_above", "outside_up", "outside_down"]))
+        root = frs(root)
+        cases.append(dict(fam="lin", coef=[a, -a * root], root=root, lower=frs(lo), upper=frs(hi), tol=rng.choice([1e-5, 1e-7, 1e-9]),
+                          mi=200, how="flat-steep"))
+    return cases
+
+
 def search(hints, tier, rng):
     wit = []
     quick = tier == "quick"
+    for i, cs in enumerate(flat_steep_cases(rng, 40 if quick else 300)):
+        v = oracle_scalar(cs, i % 4 == 0)
+        if v:
+            e = _enc(cs)
+            wit.append(dict(key=f"scalar|lin-flat-steep|{'|'.join(e['coef'])}|[{e['lower']},{e['upper']}]|tol={cs['tol']}|mi={cs['mi']}",
+                            kind="scalar", case=e, jit=(i % 4 == 0), **v))
+            if len(wit) >= 5:
+                return wit
     for i, cs in enumerate(scalar_cases(rng, 120 if quick else 1200, 40 if quick else 400)):
         jit = (i % 5 == 0)
         v = oracle_scalar(cs, jit)
